@@ -552,7 +552,15 @@ func mutationsFor(st site, root []*pnode, short bool) []mutation {
 	f := st.F
 	present := st.Idx >= 0
 	if present {
-		ms = append(ms, mutation{Class: "absent", Desc: "field removed", Apply: func(l []*pnode, s site) []*pnode { return removeField(l, s.F.Num) }})
+		// proto3: an absent scalar is its zero value
+		absentClass := "absent"
+		switch f.Kind {
+		case kVarint, kFixed32, kFixed64:
+			absentClass = "varint:0"
+		case kBytes, kString:
+			absentClass = "bytes:empty"
+		}
+		ms = append(ms, mutation{Class: absentClass, Desc: "field removed", Apply: func(l []*pnode, s site) []*pnode { return removeField(l, s.F.Num) }})
 		ms = append(ms, mutation{Class: "duplicated", Desc: "field sent twice", Apply: func(l []*pnode, s site) []*pnode {
 			out := append([]*pnode(nil), l...)
 			c := cloneNodes([]*pnode{l[s.Idx]})[0]
